@@ -337,3 +337,30 @@ func c02R9(c *Ctx) {
 		}
 	}
 }
+
+// replayVotesRule (C07-R10, C06-R8): replay re-issues the node's own votes.
+func replayVotesRule(c *Ctx, id string) {
+	rule := c.R.Rule(id, "own votes are (re)issued during replay: in signAddVote the signVote call and the hand-over to the internal queue do not depend on cs.replayMode (a crash between the WAL line that triggers a vote and the line of the vote itself is healed only by signing again — the signer re-releases the identical signature); replayMode may only silence logging", 2)
+	f := c.Anchor(rule, csT+".signAddVote")
+	if f == nil {
+		return
+	}
+	n := 0
+	for _, ci := range f.Calls() {
+		name := cfgxCallee(ci)
+		if name != csT+".signVote" && name != csT+".sendInternalMessage" {
+			continue
+		}
+		n++
+		bad := ""
+		for _, g := range f.AllGuardForms(ci.(ssa.Instruction)) {
+			if strings.Contains(g, "a0.replayMode") {
+				bad = g
+			}
+		}
+		c.R.Ob(rule, "signAddVote:"+name[strings.LastIndex(name, ".")+1:]+"-independent-of-replayMode", bad == "", c.Pos(ci), fname(f), "guarded by "+bad)
+	}
+	if n < 2 {
+		c.R.Undecided(rule, "signAddVote:calls", c.P.Pos(f.F.Pos()), fname(f), "signVote / sendInternalMessage not found")
+	}
+}
